@@ -215,6 +215,86 @@ where
     crate::cover!(s, p.f > 0, "something pending");
 }
 
+/// backend kinds: the same write_bits step over the library's real word backends delivers exactly
+/// the words the recording backend receives (slice, growable vector, byte-stream adapter)
+pub fn backend_kinds_step<E: En, W: VW, S: Src>(s: &mut S)
+where
+    Wr<E, W>: BitWrite<E, Error = Infallible>,
+    for<'a> BufBitWriter<E, MemWordWriterSlice<W, &'a mut [W]>>: BitWrite<E, Error = std::io::Error>,
+    BufBitWriter<E, MemWordWriterVec<W, Vec<W>>>: BitWrite<E, Error = Infallible>,
+    BufBitWriter<E, WordAdapter<W, crate::c18::FixedSink>>: BitWrite<E, Error = std::io::Error>,
+{
+    let buffer = W::any(s);
+    let space = s.usize_in(1, W::NBITS);
+    let v = s.u64();
+    let n = s.usize_in(0, if W::NBITS >= 16 { 64 } else { 24 });
+    if cfg!(feature = "checks") {
+        s.assume(n == 64 || v >> n == 0);
+    }
+    let j = s.usize_in(0, 4);
+    // reference: recording backend
+    let mut wr = Wr::<E, W>::verif_from_parts(Rec::<W, RN>::new(), buffer, space);
+    wr.write_bits(v, n).unwrap();
+    let k = wr.verif_backend().n;
+    let refw = wr.verif_backend().words;
+    core::mem::forget(wr);
+    s.assume(j < k);
+    // fixed slice
+    let mut arr = [W::ZERO; 6];
+    {
+        let mut ws = BufBitWriter::<E, _>::verif_from_parts(MemWordWriterSlice::new(&mut arr[..]), buffer, space);
+        let r = ws.write_bits(v, n);
+        let okk = r.is_ok();
+        core::mem::forget(r);
+        assert!(okk, "write over a large enough slice fails");
+        core::mem::forget(ws);
+    }
+    assert!(arr[j] == refw[j], "fixed-slice backend received a different word");
+    // growable vector (empty, capacity reserved)
+    let mut wv = BufBitWriter::<E, _>::verif_from_parts(MemWordWriterVec::new(Vec::<W>::with_capacity(8)), buffer, space);
+    wv.write_bits(v, n).unwrap();
+    {
+        let be = wv.verif_backend_mut();
+        assert_eq!(be.len(), k, "vector backend received a different number of words");
+        let _ = be.set_word_pos(j as u64);
+        let got = match be.read_word() {
+            Ok(x) => Some(x),
+            Err(e) => {
+                core::mem::forget(e);
+                None
+            }
+        };
+        assert!(got == Some(refw[j]), "vector backend received a different word");
+    }
+    core::mem::forget(wv);
+    // byte-stream adapter over an array sink: native bytes of the same words
+    if W::NBITS / 8 * k <= 12 {
+        let sink = crate::c18::FixedSink { bytes: [0; 12], n: 0 };
+        let mut wa = BufBitWriter::<E, _>::verif_from_parts(WordAdapter::<W, _>::new(sink), buffer, space);
+        let r = wa.write_bits(v, n);
+        let okk = r.is_ok();
+        core::mem::forget(r);
+        assert!(okk);
+        let nb = W::NBITS / 8;
+        let t = s.usize_in(0, nb - 1);
+        let sk = wa.verif_backend();
+        let _ = sk;
+        let (bytes, cnt) = {
+            // WordAdapter has into_inner only: take the writer apart without running Drop's flush
+            let w2 = unsafe { core::ptr::read(&wa) };
+            core::mem::forget(wa);
+            let (_b, _s) = w2.verif_parts();
+            let ad = unsafe { core::ptr::read(w2.verif_backend()) };
+            core::mem::forget(w2);
+            let f = ad.into_inner();
+            (f.bytes, f.n)
+        };
+        assert_eq!(cnt, nb * k, "adapter backend received a different number of bytes");
+        assert_eq!(bytes[j * nb + t], ((refw[j].to_u128() >> (8 * t)) & 0xff) as u8, "adapter backend received different bytes");
+    }
+    crate::cover!(s, k >= 2 || (W::NBITS >= 64 && k >= 1), "words delivered");
+}
+
 crate::harnesses! {
     #[kani::unwind(10)]
     c01_write_bits_be_u8 (quick, "BE,u8", "n<=64, v any u64, any state") => write_bits_step::<BE, u8, _>;
@@ -279,4 +359,44 @@ crate::harnesses! {
     c01_drop_le_u32 (quick, "LE,u32", "any state") => drop_into_inner_step::<LE, u32, _>;
     c01_drop_le_u64 (thorough, "LE,u64", "any state") => drop_into_inner_step::<LE, u64, _>;
     c01_drop_le_u128 (quick, "LE,u128", "any state") => drop_into_inner_step::<LE, u128, _>;
+    #[kani::stub(alloc::fmt::format, crate::c13::stub_format)]
+    #[kani::stub(std::string::ToString::to_string, crate::c13::stub_to_string)]
+    #[kani::unwind(14)]
+    c01_backends_be_u8 (quick, "BE,u8: MemWordWriterSlice / MemWordWriterVec / WordAdapter<FixedSink> vs recording backend", "write_bits(v, n), any buffer state: same words delivered to every backend kind") => backend_kinds_step::<BE, u8, _>;
+    #[kani::stub(alloc::fmt::format, crate::c13::stub_format)]
+    #[kani::stub(std::string::ToString::to_string, crate::c13::stub_to_string)]
+    #[kani::unwind(14)]
+    c01_backends_be_u16 (thorough, "BE,u16: MemWordWriterSlice / MemWordWriterVec / WordAdapter<FixedSink> vs recording backend", "write_bits(v, n), any buffer state: same words delivered to every backend kind") => backend_kinds_step::<BE, u16, _>;
+    #[kani::stub(alloc::fmt::format, crate::c13::stub_format)]
+    #[kani::stub(std::string::ToString::to_string, crate::c13::stub_to_string)]
+    #[kani::unwind(12)]
+    c01_backends_be_u32 (thorough, "BE,u32: MemWordWriterSlice / MemWordWriterVec / WordAdapter<FixedSink> vs recording backend", "write_bits(v, n), any buffer state: same words delivered to every backend kind") => backend_kinds_step::<BE, u32, _>;
+    #[kani::stub(alloc::fmt::format, crate::c13::stub_format)]
+    #[kani::stub(std::string::ToString::to_string, crate::c13::stub_to_string)]
+    #[kani::unwind(12)]
+    c01_backends_be_u64 (quick, "BE,u64: MemWordWriterSlice / MemWordWriterVec / WordAdapter<FixedSink> vs recording backend", "write_bits(v, n), any buffer state: same words delivered to every backend kind") => backend_kinds_step::<BE, u64, _>;
+    #[kani::stub(alloc::fmt::format, crate::c13::stub_format)]
+    #[kani::stub(std::string::ToString::to_string, crate::c13::stub_to_string)]
+    #[kani::unwind(12)]
+    c01_backends_be_u128 (thorough, "BE,u128: MemWordWriterSlice / MemWordWriterVec / WordAdapter<FixedSink> vs recording backend", "write_bits(v, n), any buffer state: same words delivered to every backend kind") => backend_kinds_step::<BE, u128, _>;
+    #[kani::stub(alloc::fmt::format, crate::c13::stub_format)]
+    #[kani::stub(std::string::ToString::to_string, crate::c13::stub_to_string)]
+    #[kani::unwind(14)]
+    c01_backends_le_u8 (thorough, "LE,u8: MemWordWriterSlice / MemWordWriterVec / WordAdapter<FixedSink> vs recording backend", "write_bits(v, n), any buffer state: same words delivered to every backend kind") => backend_kinds_step::<LE, u8, _>;
+    #[kani::stub(alloc::fmt::format, crate::c13::stub_format)]
+    #[kani::stub(std::string::ToString::to_string, crate::c13::stub_to_string)]
+    #[kani::unwind(14)]
+    c01_backends_le_u16 (thorough, "LE,u16: MemWordWriterSlice / MemWordWriterVec / WordAdapter<FixedSink> vs recording backend", "write_bits(v, n), any buffer state: same words delivered to every backend kind") => backend_kinds_step::<LE, u16, _>;
+    #[kani::stub(alloc::fmt::format, crate::c13::stub_format)]
+    #[kani::stub(std::string::ToString::to_string, crate::c13::stub_to_string)]
+    #[kani::unwind(12)]
+    c01_backends_le_u32 (quick, "LE,u32: MemWordWriterSlice / MemWordWriterVec / WordAdapter<FixedSink> vs recording backend", "write_bits(v, n), any buffer state: same words delivered to every backend kind") => backend_kinds_step::<LE, u32, _>;
+    #[kani::stub(alloc::fmt::format, crate::c13::stub_format)]
+    #[kani::stub(std::string::ToString::to_string, crate::c13::stub_to_string)]
+    #[kani::unwind(12)]
+    c01_backends_le_u64 (thorough, "LE,u64: MemWordWriterSlice / MemWordWriterVec / WordAdapter<FixedSink> vs recording backend", "write_bits(v, n), any buffer state: same words delivered to every backend kind") => backend_kinds_step::<LE, u64, _>;
+    #[kani::stub(alloc::fmt::format, crate::c13::stub_format)]
+    #[kani::stub(std::string::ToString::to_string, crate::c13::stub_to_string)]
+    #[kani::unwind(12)]
+    c01_backends_le_u128 (thorough, "LE,u128: MemWordWriterSlice / MemWordWriterVec / WordAdapter<FixedSink> vs recording backend", "write_bits(v, n), any buffer state: same words delivered to every backend kind") => backend_kinds_step::<LE, u128, _>;
 }
